@@ -138,14 +138,13 @@ def main(run):
     run.assumptions = ["model and loss are the harness' deterministic pure functions",
                        "float mode uses continuous losses only"]
     run.require("ixai/explainer/sage/incremental.py:IncrementalSage.explain_one",
-                "ixai/explainer/base.py:_get_mean_model_output",
                 "ixai/utils/tracker/multi_value.py:MultiValueTracker.get_normalized")
     run.require_count("real-model-configs", "long-stream-configs", "late-informative-model-configs")
     rnd = random.Random(run.shard_seed)
     for i in range(N_CFG[run.tier]):
         cfg = gen_cfg(rnd, "sage", exact=(i % 3 != 2))
-        if i in (40, 41) or (run.tier == "thorough" and i % 500 == 42):      # thousands of calls on one explainer (exact and float)
-            make_long(cfg, rnd, 4200 if i == 41 else rnd.choice([1100, 2100, 9000 if run.tier == "thorough" else 1300]))
+        if i in (40, 41) or (run.tier == "thorough" and i % 1500 == 42):      # thousands of calls on one explainer (exact and float)
+            make_long(cfg, rnd, 4200 if i == 41 else rnd.choice([1100, 2100, 5000 if run.tier == "thorough" else 1300]))
             run.count("long-stream-configs")
         if i in (50, 51, 53, 56) or (run.tier == "thorough" and i % 300 == 50):      # model that becomes informative after ~40 observations
             make_phase(cfg, rnd, dyn=(i == 51))
